@@ -249,9 +249,9 @@ def runModel (k : ModelKind) (items : List (Item Pt)) : List String :=
   | .evalcount => renderOuts (runNode evalCountNode () items)
   | .alert pr => renderOuts (runNode (alertNode pr) () items)
   | .iql m => renderOuts (runNode (iqlNode m) {} items)
-  | .wherenested m r => renderOuts (runNode (whereNestedNode m r) 0 items)
-  | .evalnested => renderOuts (runNode evalNestedNode 0 items)
-  | .alertnested k => renderOuts (runNode (alertNodeShared (.gt k)) 0 items)
+  | .wherenested m r => renderOuts (runNode (whereNestedNode m r) () items)
+  | .evalnested => renderOuts (runNode evalNestedNode () items)
+  | .alertnested k => renderOuts (runNode (alertNode (.gt k)) () items)
   | .stateduration t => renderOuts (runNode (stateDurationNode t) () items)
   | .statecountfn m => renderOuts (runNode (stateCountFnNode m) () items)
   | .statedurationfn m => renderOuts (runNode (stateDurationFnNode m) () items)
@@ -363,13 +363,6 @@ def judgeIso (lines : Array String) : Verdict := Id.run do
     let failing := (solo.filter (fun gs => !isolatedFor fullMsgs gs.1 gs.2)).map (·.1)
     let foreign := fullMsgs.any (fun m => !(solo.any (fun gs => gs.1 == m.key)))
     let predicted := match modelFull with | some m => m == fullR.map (·.2) | none => true
-    -- recorded deviation nested-lambda-state-shared: the node's lambda uses a lambda var with a stateful function;
-    -- only accepted when the output is EXACTLY what the model with one nested state per node predicts
-    let nestedKind := match modelKind? kind p1 p2 with
-      | some (.wherenested _ _) | some .evalnested | some (.alertnested _) => true
-      | _ => false
-    if nestedKind && modelFull.isSome && predicted && !foreign && !failing.isEmpty then
-      return .known "nested-lambda-state-shared" s!"node {kind}: groups {failing} see the nested lambda's count() of all groups"
     if !failing.isEmpty && failing.all (fun g => colliding.contains g) && !foreign && predicted then
       return .known "groupid-delimiter-collision" s!"node {kind}: groups {failing} share a receiver because their ids collide"
     let g := failing.headD "output-for-a-group-without-input"
